@@ -976,6 +976,11 @@ fn first_diff(sv: &[(Id, [Option<u32>; NC])], mv: &[(Id, [Option<u32>; NC])]) ->
 // C13 structural audit
 
 pub fn audit(d: &brood::verif::Dump, m: &Model, chk: &mut Checker, k: &str, which: &str) {
+    audit_n(d, m, chk, k, which, NC)
+}
+
+/// The structural audit for a registry of `ncomp` components (the model rows only carry liveness here).
+pub fn audit_n(d: &brood::verif::Dump, m: &Model, chk: &mut Checker, k: &str, which: &str, ncomp: usize) {
     let mut bad = |key: &str, detail: String| {
         // a pointer kept to memory this world does not own is also a memory-safety defect (C05): the next lookup
         // compares / dereferences it
@@ -984,7 +989,7 @@ pub fn audit(d: &brood::verif::Dump, m: &Model, chk: &mut Checker, k: &str, whic
         }
         chk.fail(Prop::C13, &format!("{} op={}", key, k), format!("[{}] {}", which, detail))
     };
-    let nbytes = (NC + 7) / 8;
+    let nbytes = (ncomp + 7) / 8;
     let mut by_addr: BTreeMap<usize, usize> = BTreeMap::new();
     let mut seen_bytes: BTreeSet<Vec<u8>> = BTreeSet::new();
     let mut total = 0usize;
@@ -999,7 +1004,7 @@ pub fn audit(d: &brood::verif::Dump, m: &Model, chk: &mut Checker, k: &str, whic
         if !seen_bytes.insert(a.id_bytes.clone()) {
             bad("two-tables-one-component-set", format!("component set {:?} has two tables", a.id_bytes));
         }
-        if NC % 8 != 0 && a.id_bytes.last().map_or(false, |b| b >> (NC % 8) != 0) {
+        if ncomp % 8 != 0 && a.id_bytes.last().map_or(false, |b| b >> (ncomp % 8) != 0) {
             bad("identifier-padding-bits", format!("{:?}", a.id_bytes));
         }
         if by_addr.insert(a.id_addr, ai).is_some() {
